@@ -643,6 +643,9 @@ pub fn run_c07(ctx: &mut Ctx) {
         Op::SetRemote(0),
         // the agent's own (local) credentials never authenticate a response
         Op::SetLocal(0),
+        // ... nor do long-term local credentials turn an unsigned 401 / 438 challenge into an answer
+        Op::SetLocal(1),
+        Op::Response { tid: 1, from: 2, error: true, seal: RespSeal::Unsigned, fp: true },
     ];
     // remote credentials initially unset for half of the enumerated histories
     let mut gi = 0u64;
